@@ -18,7 +18,7 @@ from ..common import NCPU, rmtree, scratch, seed
 
 LAWS = ["NoClobber", "Converges", "NoStale", "ExitLaw", "RejectedWritesNothing"]
 PROPS = ["Confined", "NoClobberStep", "RejectedStep", "EveryCommandExits"]
-ALL = {"Docs": set(fshist.DOCS), "HookKinds": set(fshist.HOOKS), "MaxTouches": 99, "Touches": {"u_top", "u_flav", "u_pkg", "u_models", "u_api", "sib"}}
+ALL = {"CrashPoints": set(), "Docs": set(fshist.DOCS), "HookKinds": set(fshist.HOOKS), "MaxTouches": 99, "Touches": {"u_top", "u_flav", "u_pkg", "u_models", "u_api", "sib"}}
 METAS = ["none", "poetry", "pdm", "setup"]
 
 
@@ -31,7 +31,7 @@ def model_check(rep, d, quick: bool):
         rep.notes.append(f"TLC: {res.violated} violated on the model: {res.counterexample[:600]}")
         rep.extra["tlc_law_violations"] = res.violated
     # emission run (histories with their predicted trees); smaller alphabet of hooks to keep the number of histories replayable
-    cfg = tlc.write_cfg(d / "fs-emit.cfg", {"MaxCmds": 2, "Docs": set(fshist.DOCS), "HookKinds": {"ok"} if quick else set(fshist.HOOKS),
+    cfg = tlc.write_cfg(d / "fs-emit.cfg", {"CrashPoints": set(), "MaxCmds": 2, "Docs": set(fshist.DOCS), "HookKinds": {"ok"} if quick else set(fshist.HOOKS),
                                             "Touches": ALL["Touches"], "MaxTouches": 1 if quick else 2, "EmitJson": True}, LAWS + ["Emit"])
     res2 = tlc.run_tlc("FsHistoryMC.tla", cfg, workers=1, timeout=3000)
     rep.tlc(res2)
@@ -129,6 +129,124 @@ def replay_history(rep, case: dict, meta: str, d: Path, fresh_cache: dict, tid: 
             rep.drifted(mode="fshistory", meta=meta, history=cmds, model=[pred, case["code"]], real=[real, last[1]])
     all_events += sb.events
     shutil.rmtree(root, ignore_errors=True)
+
+
+CRASH_AFTER = {"package": ("mkdir", "exists_overwrite"), "metadata": ("package_done",), "rm_models": ("metadata_done",), "client": ("models_done",), "hooks": ("api_done",)}
+
+
+class SimulatedCrash(BaseException):
+    """Raised from the (guarded) trace hook to end Project.build between two steps, as if the process had died."""
+
+
+def crash_leg(rep, d: Path, quick: bool, rnd) -> None:
+    """FsHistory.tla with crash points: a generating process may die before any of the write steps that the hooks delimit.  TLC checks
+    the laws with crashes enabled; emitted histories (a crashed command, then commands that complete) are replayed on the real CLI with
+    the trace hook raising at the corresponding event; every completed command is judged as usual (convergence to a fresh generation,
+    no clobbering without --overwrite, user files untouched, nothing outside the output directory)."""
+    from openapi_python_client import _verif_trace
+
+    consts = {"CrashPoints": set(CRASH_AFTER), "MaxCmds": 2 if quick else 3, "Docs": {"d1", "d2"} if quick else {"d1", "d2", "dWarn"}, "HookKinds": {"ok"},
+              "Touches": {"u_top", "u_models"}, "MaxTouches": 1, "EmitJson": True}
+    cfg = tlc.write_cfg(d / "fs-crash.cfg", consts, LAWS + ["Emit"], props=PROPS)
+    res = tlc.run_tlc("FsHistoryMC.tla", cfg, workers=1, timeout=3000)
+    rep.tlc(res)
+    if res.violated:
+        rep.notes.append(f"TLC: {res.violated} violated on the model with crash points: {res.counterexample[:600]}")
+        rep.extra.setdefault("tlc_law_violations", []).extend(res.violated)
+    cases = [p for p in res.printed if isinstance(p, dict) and "hist" in p and any(h["ev"] == "crash" for h in p["hist"])]
+    if len(cases) < 50:
+        raise tlc.TlcFailure(f"only {len(cases)} histories with a crash were emitted")
+    strata: dict = {}
+    for c in cases:
+        key = tuple((h.get("at") or (h["c"]["doc"], h["c"]["ow"]) if h["ev"] != "touch" else h["p"]) for h in c["hist"])
+        strata.setdefault(str(key), c)
+    chosen = list(strata.values())
+    rnd.shuffle(chosen)
+    chosen = chosen[: (60 if quick else 600)]
+    fresh_cache: dict = {}
+    orig = _verif_trace.emit
+    n_crashed = 0
+    for tid, case in enumerate(chosen, start=1):
+        meta = METAS[tid % 4]
+        root = d / f"k{tid:05d}"
+        sb = fshist.Sandbox(root, meta)
+        hist = case["hist"]
+        for i, h in enumerate(hist):
+            if h["ev"] == "touch":
+                sb.touch(h["p"])
+                continue
+            if h["ev"] != "cmd":
+                continue
+            crash_at = hist[i + 1]["at"] if i + 1 < len(hist) and hist[i + 1]["ev"] == "crash" else None
+            c = h["c"]
+            before = sb.snap_all()
+            existed = sb.out.exists()
+            if crash_at:
+                trigger = CRASH_AFTER[crash_at]
+
+                def emit(ev, _orig=orig, _trigger=trigger, **fields):
+                    _orig(ev, **fields)
+                    if ev == "fs" and fields.get("op") in _trigger:
+                        raise SimulatedCrash()
+                _verif_trace.emit = emit
+            try:
+                try:
+                    code, output, exc = sb.run(c, tracefile=root / "trace.ndjson")
+                    crashed = False
+                except SimulatedCrash:
+                    code, output, exc, crashed = None, "", None, True
+            finally:
+                _verif_trace.emit = orig
+            after = sb.snap_all()
+            key_c = f"doc={c['doc']}/ow={int(c['ow'])}/existed={int(existed)}/meta={meta}/after-crash"
+            rep.count(1, ("crash-history", json.dumps(hist[: i + 2]), meta))
+            changed = _diff(before, after)
+            outside = [p for p in changed if not (p == "work/out/" or p.startswith("work/out/")) and p not in ("cfg.json",) and not p.endswith("trace.ndjson")]
+            if outside:
+                rep.violate(f"C19/outside-output-dir/{key_c}", f"paths outside the output directory changed: {outside[:5]}", history=hist[: i + 2], meta=meta)
+            if crash_at:
+                if not crashed and not (existed and not c["ow"]):
+                    rep.drifted(mode="fshistory-crash", note=f"the command was to die before {crash_at} but completed", history=hist[: i + 2], meta=meta)
+                n_crashed += crashed
+                continue
+            if exc is not None:
+                rep.violate(f"C19/crash/{key_c}", "the CLI raised an unhandled exception", history=hist[: i + 1], exc=exc, meta=meta)
+                continue
+            if existed and not c["ow"]:
+                if [p for p in changed if p.startswith("work/")]:
+                    rep.violate(f"C19/clobbered-without-overwrite/{key_c}", f"existing (partial) directory modified without --overwrite: {changed[:5]}", history=hist[: i + 1], meta=meta)
+                if code == 0 or "already exists" not in output:
+                    rep.violate(f"C19/no-error-without-overwrite/{key_c}", "existing (partial) directory, no --overwrite: no error reported", history=hist[: i + 1], meta=meta)
+                continue
+            fk = (c["doc"], meta, c["hk"])
+            if fk not in fresh_cache:
+                fresh_cache[fk] = fshist.fresh_tree(c["doc"], meta, c["hk"], d)
+            fresh = fresh_cache[fk]
+            tree = gen.snapshot(sb.out, content=True)
+            users = {}
+            for k in ("u_top", "u_flav", "u_pkg"):
+                pth = sb.userpath(k)
+                rel = str(pth.relative_to(sb.out))
+                if ("work/out/" + rel) in before:
+                    users[rel] = k
+            extra = [p for p in tree if p not in fresh and p not in users]
+            missing = [p for p in fresh if p not in tree]
+            differs = [p for p in fresh if p in tree and tree[p] != fresh[p]]
+            if extra or missing or differs:
+                rep.violate(f"C19/not-converged/{key_c}", f"after an interrupted generation, regenerating does not give a fresh tree: extra={extra[:4]} missing={missing[:4]} differs={differs[:4]}",
+                            history=hist[: i + 1], meta=meta)
+            for rel, k in users.items():
+                if rel not in tree or tree[rel] != f"user content {k}".encode():
+                    rep.violate(f"C19/user-file-touched/{k}/{key_c}", f"user file {rel} was modified or deleted", history=hist[: i + 1], meta=meta)
+        real = sb.abstract_present()
+        pred = sorted(case["present"])
+        if meta == "none":          # this flavour has no metadata files: the artefact is vacuous in the projection
+            real, pred = [x for x in real if x != "meta"], [x for x in pred if x != "meta"]
+        if real != pred:
+            rep.drifted(mode="fshistory-crash", meta=meta, history=hist, model=pred, real=real)
+        shutil.rmtree(root, ignore_errors=True)
+    rep.extra["crash_histories_replayed"] = len(chosen)
+    rep.extra["commands_interrupted"] = n_crashed
 
 
 HOSTILE = ["../../evil", "/abs/path", "a/b", "..", ".", " ", "x\\y", "..\\..\\w", "~", "$HOME", "%2e%2e/%2e%2e", "-rf", "con", "a/../../b",
@@ -232,6 +350,7 @@ def run(rep) -> None:
             if tid < 900000:
                 rep.drifted(mode="fstrace", why=why, history=chosen[tid - 1]["hist"])
         hostile_names(rep, d, quick)
+        crash_leg(rep, d, quick, rnd)
         rep.sample({"history": chosen[0]["hist"], "model_tree": chosen[0]["present"], "model_exit": chosen[0]["code"]})
         rep.extra["histories_replayed"] = len(chosen)
     finally:
